@@ -132,3 +132,54 @@ Definition obs_eqb (a b : obs) : bool :=
 Definition guard_class (F : family) (base : str) (dflt : option value) (steps : list input) : N :=
   if existsb nested_null steps && negb (obs_eqb (run F base dflt steps) (run_fixed F base dflt steps))
   then 1%N else 0%N.
+
+(* ---------- finding class 2: an option default given as a STRING is not checked -----------------------------------
+   add_argument("--x", type=Base, default="mod.Cls"): a string that names a valid class is normalised to its spec when the
+   defaults are completed; a string that does NOT (not importable, not a subclass) is left as it is - no error - and, when
+   no item addresses the option, parse returns the string and instantiate_classes hands it on.  The same class_path given
+   as a dict default is rejected.  `run_dstr` = the code as it is (dstr: the default was given as a string). *)
+Definition dstr_hit (F : family) (base : str) (dflt : option value) (steps : list input) (dstr : bool) : option str :=
+  match dstr, dflt, steps with
+  | true, Some (VSpec cp [] []), [] =>
+      match expand_default F (fun r => r) base dflt with
+      | Err _ => Some cp
+      | Ok _ => None
+      end
+  | _, _, _ => None
+  end.
+
+(* with items: the string that could not be completed is the (non-spec) previous value of the first item - a full
+   class selection replaces it, a dotted item / init_args without class_path finds no class to rely on *)
+Definition dstr_junk (F : family) (base : str) (dflt : option value) (steps : list input) (dstr : bool) : option str :=
+  match dstr, dflt, steps with
+  | true, Some (VSpec cp [] []), _ :: _ =>
+      match expand_default F (fun r => r) base dflt with
+      | Err _ => Some cp
+      | Ok _ => None
+      end
+  | _, _, _ => None
+  end.
+
+Definition run_from (F : family) (rs : raw -> raw) (base : str) (cfg0 : option value) (steps : list input) : obs :=
+  match (cfg <- apply_steps F rs base cfg0 steps ;;
+         match cfg with Some v => finalize F rs base v | None => Err Reject end) with
+  | Ok v => OAcc v (match inst F FUEL v [] with
+                    | Ok (a, log) => IOk a log
+                    | Err TypeErr => ITypeErr
+                    | Err _ => IOther
+                    end)
+  | Err _ => ORej
+  end.
+
+Definition run_dstr (rs : raw -> raw) (runf : family -> str -> option value -> list input -> obs)
+           (F : family) (base : str) (dflt : option value) (steps : list input) (dstr : bool) : obs :=
+  match dstr_hit F base dflt steps dstr with
+  | Some cp => OAcc (VStr cp) (IOk (AStr cp) [])
+  | None => match dstr_junk F base dflt steps dstr with
+            | Some cp => run_from F rs base (Some (VStr cp)) steps
+            | None => runf F base dflt steps
+            end
+  end.
+
+Definition dstr_class (F : family) (base : str) (dflt : option value) (steps : list input) (dstr : bool) : N :=
+  match dstr_hit F base dflt steps dstr with Some _ => 2%N | None => 0%N end.
